@@ -228,6 +228,8 @@ type c31Sess struct {
 	addr   string
 	client *blobclient.HTTPClient
 
+	cluster blobclient.ClusterProvider // remote clusters (nil: none)
+
 	uploads map[string]*c31Async // paused uploads by key
 	manual  map[string]*c31Manual // uploads driven request by request (start / patch / commit)
 	fc      *c31Async            // paused forced cleanup
@@ -280,8 +282,12 @@ func (s *c31Sess) open() error {
 	ring := hashring.New(hashring.Config{MaxReplica: 1}, hostlist.Fixture(c31Host), healthcheck.IdentityFilter{}, tally.NoopScope)
 	clk := clock.NewMock()
 	clk.Set(time.Now().Add(2 * time.Hour)) // every cache file is "expired" for a forced cleanup with ttl 0
+	var cluster blobclient.ClusterProvider = c31NoCluster{}
+	if s.cluster != nil {
+		cluster = s.cluster
+	}
 	srv, err := blobserver.New(blobserver.Config{}, tally.NoopScope, clk, c31Host, ring, cas, c31NoClients{},
-		c31NoCluster{}, core.PeerContextFixture(), bm, br, mg, s.gm)
+		cluster, core.PeerContextFixture(), bm, br, mg, s.gm)
 	if err != nil {
 		return err
 	}
